@@ -914,10 +914,10 @@ pub fn supervise(cases_path: &str, out_path: &str, tier: &str, seed: u64) {
             let t: Vec<&str> = l.split_whitespace().collect();
             match t.as_slice() {
                 ["S", g, v] => { started.insert((g.parse().unwrap(), v.parse().unwrap()), false); }
-                ["E", g, v] => { let (g, v) = (g.parse().unwrap(), v.parse().unwrap()); started.insert((g, v), true); let e = last_end.entry(g).or_insert(0); *e = (*e).max(v + 1); }
+                ["E", g, v] => { let (g, v) = (g.parse().unwrap(), v.parse().unwrap()); started.insert((g, v), true); total += 1; let e = last_end.entry(g).or_insert(0); *e = (*e).max(v + 1); }
                 ["D", g, ..] => { done.insert(g.parse().unwrap()); }
                 ["H", g, v] => hung.push((g.parse().unwrap(), v.parse().unwrap())),
-                ["N", n] => total += n.parse::<u64>().unwrap_or(0),
+                ["N", _n] => {}
                 ["T", ms, n, rest @ ..] => timing.push((ms.parse().unwrap_or(0), n.parse().unwrap_or(0), rest.join(" "))),
                 _ => {}
             }
